@@ -3,7 +3,7 @@ import numpy as np
 from lib import common as C, models as M
 
 GEN = ['BlockFacts']
-IMPORTS = ['C03/basis_product', 'C03/mul_den', 'C03/rs_matrix_den', 'C03/rmatmul_den', 'C03/add_den', 'C03/dense_add_den', 'C14/compose_is_block_product', 'C14/apply_is_block_matvec', 'C14/pack_unpack_index']
+IMPORTS = ['C03/basis_product', 'C03/mul_den', 'C03/rs_matrix_den', 'C03/rmatmul_den', 'C03/add_den', 'C03/dense_add_den', 'C14/compose_is_block_product', 'C14/apply_is_block_matvec', 'C14/pack_unpack_index', 'C03/prune_thresholds']
 TRUSTED = ['the partial-equilibrium nonlinear evaluation of each block (C02, C09)', 'H_U factorisation (C05)']
 ASSUMPTIONS = ['convergence of the quasi-Newton iteration (frozen steady-state Jacobian) is not proved; the contract is: returns only if the tolerance test held on the returned iterate',
                'second-order convergence to the linear impulse is checked numerically (scalar-case theorem not built)',
